@@ -90,6 +90,7 @@ def execute(data, opener, warm, target, follow, plan, chooser, step_cap=200000, 
                 fs.faults.disarm()
                 res['n'] = fs.faults.k
                 res['target'] = res['open']
+                res['reqs'] = [(r[3], r[4], r[5]) for r in fs.reqlog]      # (what open asked for: lengths for the short answers)
             else:
                 for c in warm:
                     battery.outcome(lambda: battery.apply_call(obj, c))
